@@ -98,6 +98,12 @@ def reduceCheck (p : PProject) (impl : Json) : ReduceOut := Id.run do
 
 def projIRCheck (prop : String) (p : PProject) (impl : Json) : Except String PropOut := do
   let accepted := (impl.getObjVal? "out").toOption.isSome && (impl.getObjVal? "ir").toOption.isSome
+  -- C14: whatever the project looks like, the run ends with success or a reported error — never a crash
+  let crash := ["runErr", "graphErr", "validateErr", "setupErr", "configErr"].filterMap fun k =>
+    let e := jstrD impl k
+    if (e.splitOn "PANIC").length > 1 then some (k ++ ":" ++ e.take 200) else none
+  if prop = "C14" && !crash.isEmpty then
+    return { model := Json.str "no-crash", implView := Json.str "crash", implFails := crash.map (s!"panic:{·}"), nontrivial := true, notes := ["d:crash"] }
   if !accepted then
     return { model := Json.str "not-accepted", implView := Json.str "not-accepted", nontrivial := false, notes := ["d:not-accepted"] }
   let d := parseIRDoc ((impl.getObjVal? "ir").toOption.getD Json.null)
